@@ -1,7 +1,6 @@
 SPECIFICATION Spec
-CONSTANTS MaxTok = 6 MaxDepth = 3
-  Leaves <- LeavesTiny
-  RootKinds <- SeqRoots
+CONSTANTS MaxDepth = 3
+  Families <- FamQuick
   StoreByCopy = TRUE
   TailKeepsSets = TRUE
 INVARIANT Emitted
